@@ -27,6 +27,8 @@ def check(case):
         if mo["kind"] == "template" and rows != G.expected_rows(mo, vs):
             raise RuntimeError("harness: template callback returned unexpected rows")
         names = G.expected_names(mo)
+        if mo.get("drop_loops"):
+            names = names[:1] * len(rows)
         if len(names) != len(rows):
             raise RuntimeError("harness: names/rows mismatch")
         if rows:
